@@ -119,7 +119,7 @@ def package_overlay(root, how, package="syne_tune"):
                 p = os.path.join(d, f)
                 with open(p, encoding="utf-8") as fh:
                     src = fh.read()
-                fn = {"reformat": reformat, "swapif": swap_if, "flipcmp": flip_cmp, "inline": inline_temps, "extract": extract_args, "nestelse": nest_else}.get(how)
+                fn = {"reformat": reformat, "swapif": swap_if, "flipcmp": flip_cmp, "inline": inline_temps, "extract": extract_args, "nestelse": nest_else, "splitand": split_and, "mergeif": merge_if}.get(how)
                 out[os.path.relpath(p, root)] = fn(src) if fn else rewrite(src, how)
     return out
 
@@ -464,3 +464,42 @@ def keywordise_package(sources, package="syne_tune"):
         ast.fix_missing_locations(t2)
         out[p] = ast.unparse(t2) + "\n"
     return out
+
+
+# ------------------------------------------------------------------ nested ifs <-> conjunctions
+class _SplitAnd(ast.NodeTransformer):
+    """`if a and b: X` (no else)  ->  `if a:` / `    if b: X`"""
+
+    def visit_If(self, n):
+        self.generic_visit(n)
+        if not n.orelse and isinstance(n.test, ast.BoolOp) and isinstance(n.test.op, ast.And):
+            inner = ast.If(test=n.test.values[-1], body=n.body, orelse=[])
+            for v in reversed(n.test.values[:-1]):
+                inner = ast.If(test=v, body=[inner], orelse=[])
+            return ast.copy_location(inner, n)
+        return n
+
+
+class _MergeIf(ast.NodeTransformer):
+    """`if a:` / `    if b: X` (neither has an else, nothing else in the outer body)  ->  `if a and b: X`"""
+
+    def visit_If(self, n):
+        self.generic_visit(n)
+        if not n.orelse and len(n.body) == 1 and isinstance(n.body[0], ast.If) and not n.body[0].orelse:
+            inner = n.body[0]
+            vals = (n.test.values if isinstance(n.test, ast.BoolOp) and isinstance(n.test.op, ast.And) else [n.test]) + \
+                   (inner.test.values if isinstance(inner.test, ast.BoolOp) and isinstance(inner.test.op, ast.And) else [inner.test])
+            return ast.copy_location(ast.If(test=ast.BoolOp(op=ast.And(), values=list(vals)), body=inner.body, orelse=[]), n)
+        return n
+
+
+def split_and(src):
+    t = _SplitAnd().visit(ast.parse(src))
+    ast.fix_missing_locations(t)
+    return ast.unparse(t) + "\n"
+
+
+def merge_if(src):
+    t = _MergeIf().visit(ast.parse(src))
+    ast.fix_missing_locations(t)
+    return ast.unparse(t) + "\n"
